@@ -5,7 +5,7 @@ From Coq Require Import ZArith NArith List Bool Lia.
 From Coq Require Export Floats.SpecFloat.
 From Pakhi Require Import Base.
 Import ListNotations.
-Open Scope Z_scope.
+Local Open Scope Z_scope.
 
 Definition f64 := spec_float.
 Definition prec := 53.
